@@ -204,13 +204,30 @@ def normalise_while(fi: FuncInfo, loop):
         return loop
     if id(loop) in _NORMAL_WHILE:
         return _NORMAL_WHILE[id(loop)]
+    import copy
     k = 0
     tests = []
+    temps: Dict[str, ast.expr] = {}          # pure temporaries assigned in front of a guard clause: read through them
+    kept = []
+
+    class _Inline(ast.NodeTransformer):
+        def visit_Name(self, node):
+            if isinstance(node.ctx, ast.Load) and node.id in temps:
+                return copy.deepcopy(temps[node.id])
+            return node
+
+    def _pure(e) -> bool:
+        return not any(isinstance(n, (ast.Call, ast.NamedExpr, ast.Lambda, ast.ListComp, ast.GeneratorExp, ast.Await, ast.Yield)) and not _pure_call(n) for n in ast.walk(e))
     while k < len(loop.body):
         st = loop.body[k]
-        if isinstance(st, ast.If) and not st.orelse and len(st.body) == 1 and isinstance(st.body[0], ast.Break) \
-                and not any(isinstance(n, (ast.Call, ast.NamedExpr)) and not _pure_call(n) for n in ast.walk(st.test)):
-            tests.append(st.test)
+        if isinstance(st, ast.If) and not st.orelse and len(st.body) == 1 and isinstance(st.body[0], ast.Break) and _pure(st.test):
+            tests.append(_Inline().visit(copy.deepcopy(st.test)) if temps else st.test)
+            k += 1
+        elif isinstance(st, ast.Assign) and len(st.targets) == 1 and isinstance(st.targets[0], ast.Name) and _pure(st.value) \
+                and st.targets[0].id not in temps and any(isinstance(s2, ast.If) and not s2.orelse and len(s2.body) == 1 and isinstance(s2.body[0], ast.Break)
+                                                          for s2 in loop.body[k + 1:k + 4]):
+            temps[st.targets[0].id] = _Inline().visit(copy.deepcopy(st.value)) if temps else st.value
+            kept.append(st)
             k += 1
         else:
             break
@@ -219,7 +236,7 @@ def normalise_while(fi: FuncInfo, loop):
     parts = [] if (isinstance(loop.test, ast.Constant) and loop.test.value is True) else [loop.test]
     parts += [ast.UnaryOp(op=ast.Not(), operand=t) for t in tests]
     test = parts[0] if len(parts) == 1 else ast.BoolOp(op=ast.And(), values=parts)
-    new = ast.While(test=test, body=loop.body[k:], orelse=[])
+    new = ast.While(test=test, body=kept + loop.body[k:], orelse=[])
     ast.copy_location(new, loop)
     ast.fix_missing_locations(new)
     keep(new)
